@@ -42,7 +42,7 @@ TInit ==      \* placeholder configuration; every trace starts with a Reset line
   /\ cap = 1 /\ maxBytes = 0 /\ store = [d \in {"A", "B", "C", "D"} |-> Missing] /\ csize = <<>>
   /\ tainted = {} /\ stale = {} /\ dev = {} /\ nops = [t \in Threads |-> 0] /\ hist = <<>>
   /\ allowed = [k \in Keys |-> {}] /\ ever = [k \in Keys |-> {}] /\ okset = [t \in Threads |-> {}]
-  /\ fl = [t \in Threads |-> NoFl] /\ pend = {} /\ nupd = 0
+  /\ fl = [t \in Threads |-> NoFl] /\ pend = {} /\ nupd = 0 /\ raced = [t \in Threads |-> FALSE]
   /\ l = 1 /\ mode = "seq"
 
 Reset ==
@@ -54,6 +54,7 @@ Reset ==
   /\ tainted' = {} /\ stale' = {} /\ dev' = {} /\ nops' = [t \in Threads |-> 0] /\ hist' = <<>>
   /\ allowed' = [k \in Keys |-> {Trace[l].store[DocOf(k)]} \ {Missing}] /\ ever' = [k \in Keys |-> {Trace[l].store[DocOf(k)]} \ {Missing}]
   /\ okset' = [t \in Threads |-> {}] /\ fl' = [t \in Threads |-> NoFl] /\ pend' = {} /\ nupd' = 0
+  /\ raced' = [t \in Threads |-> FALSE]
   /\ mode' = Trace[l].mode
 
 (* ------------------------------- pass P ------------------------------- *)
